@@ -358,3 +358,40 @@ Proof.
     destruct (Ein ltac:(lia)) as (-> & ->). reflexivity.
   - rewrite (Elo Hlo). rewrite andb_false_r. reflexivity.
 Qed.
+
+(* BFC Rd, #lsb, #width = BFI from the zero register: the field is cleared, everything else kept *)
+Corollary bfc_correct size lsb width r s dst : size_ok size -> 0 <= lsb -> 0 <= width -> 0 <= dst < 2 ^ size ->
+  encode_bitfield Bfi size lsb width = Some (r, s) ->
+  exists v, bfm_pc size r s dst 0 = Some v /\ 0 <= v < 2 ^ size /\
+    forall i, 0 <= i < size -> Z.testbit v i = if (lsb <=? i) && (i <? lsb + width) then false else Z.testbit dst i.
+Proof.
+  intros Hso Hl Hw Hdst He.
+  assert (H0 : 0 <= 0 < 2 ^ size) by (split; [lia | apply pow2_pos; destruct Hso; lia]).
+  destruct (bfi_correct size lsb width r s dst 0 Hso Hl Hw Hdst H0 He) as (v & Hv & Hr & Hb).
+  exists v. split; [exact Hv|]. split; [exact Hr|]. intros i Hi. rewrite (Hb i Hi). rewrite Z.bits_0. reflexivity.
+Qed.
+
+(* ROR #shift through EXTR Rd, Rn, Rn, #shift: the extract of Rn:Rn is the rotation *)
+Theorem ror_extr_correct size sh imms src : size_ok size -> 0 <= sh -> 0 <= src < 2 ^ size ->
+  encode_ror_imm size sh = Some imms ->
+  imms = sh /\ 0 <= imms < size /\ extr_pc size src src imms = ror_n size src sh.
+Proof.
+  intros Hso Hsh Hsrc He. unfold encode_ror_imm in He.
+  destruct (Z.leb_spec size sh); [discriminate|]. injection He as <-.
+  assert (Hsz : 0 < size) by (destruct Hso; lia).
+  split; [reflexivity|]. split; [lia|].
+  unfold extr_pc, ror_n. cbv zeta. rewrite (Z.mod_small sh size) by lia.
+  pose proof (pow2_pos sh Hsh) as Hp. pose proof (pow2_pos (size - sh) ltac:(lia)) as Hq.
+  assert (Hs : 2 ^ size = 2 ^ (size - sh) * 2 ^ sh) by (rewrite <- Z.pow_add_r by lia; f_equal; lia).
+  (* (src * 2^size + src) / 2^sh = src * 2^(size-sh) + src / 2^sh *)
+  rewrite Hs at 1. rewrite Z.mul_assoc, Z.add_comm, Z.div_add by lia.
+  (* modulo 2^size only the low sh bits of src survive in the first summand *)
+  rewrite (Z.div_mod src (2 ^ sh)) at 2 by lia.
+  replace ((2 ^ sh * (src / 2 ^ sh) + src mod 2 ^ sh) * 2 ^ (size - sh))
+    with (src mod 2 ^ sh * 2 ^ (size - sh) + (src / 2 ^ sh) * (2 ^ sh * 2 ^ (size - sh))) by ring.
+  replace (2 ^ sh * 2 ^ (size - sh)) with (2 ^ size) by (rewrite <- Z.pow_add_r by lia; f_equal; lia).
+  rewrite Z.add_assoc, Z.mod_add by lia. reflexivity.
+Qed.
+
+Example ror_extr_witness : extr_pc 32 0x80000001 0x80000001 1 = 0xC0000000 /\ encode_ror_imm 64 64 = None /\ encode_ror_imm 64 63 = Some 63.
+Proof. repeat split; vm_compute; reflexivity. Qed.
